@@ -16,7 +16,7 @@ func init() {
 		ID:  "C30",
 		Run: runC30,
 		Explanation: "Static decision of the asynchronous structure of mount write buffering, for both dirty-page implementations: (1) ASYNC-flush: FlushData hands every buffered page to storage, then waits for all uploads, then inspects the shared error and only then answers nil; (2) ASYNC-save: saveToStorage registers the upload with the wait group before it is started, fixes the chunk's modification time (which orders overlapping chunks) before the upload is started and stamps the chunk with that captured value, limits the reader to the chunk size, records a failed upload in the shared error and adds the chunk under the chunk lock — the two implementations must agree on all of these; " +
-			"(3) GUARD-commit: the file handle writes metadata only after a successful FlushData, reports a failed metadata write, and a write marks the metadata dirty and grows the file size to cover the written range. The interval algebra and byte-level POSIX semantics are not decided.",
+			"(3) GUARD-commit: the file handle writes metadata only after a successful FlushData, reports a failed metadata write, and a write marks the metadata dirty and grows the file size to cover the written range. The interval algebra and byte-level POSIX semantics are not decided. Also decided (SIB-intervals): the in-memory and temp-file interval lists branch on the same conditions in every shared method; the tail-append shortcut that skips the overlap pass is taken only with exactly one list; a cut node's backing position advances by what was cut from its front (sum compared term-wise).",
 		Assumptions: []string{"concurrentWriters.Execute eventually runs the function it is given"},
 		Trusted:     baseTrusted,
 	})
